@@ -112,21 +112,6 @@ def onlyTablePorts (tbl : List (String × String × Mode)) (ops : List Op) : Pro
 
 theorem allFixes_all_clone : (portTable allFixes).all (fun r => r.2.2 == .clone) = true := by decide
 
-theorem modeOf_clone_of_all {tbl : List (String × String × Mode)}
-    (hall : tbl.all (fun r => r.2.2 == .clone) = true) {p : Port}
-    (hp : (tbl.any (fun r => portName r.1 r.2.1 == p)) = true) : modeOf tbl p = .clone := by
-  unfold modeOf
-  cases hf : tbl.find? (fun r => portName r.1 r.2.1 == p) with
-  | none =>
-    rw [List.find?_eq_none] at hf
-    rw [List.any_eq_true] at hp
-    obtain ⟨r, hr, hrp⟩ := hp
-    exact absurd hrp (hf r hr)
-  | some r =>
-    have hm := List.mem_of_find?_eq_some hf
-    rw [List.all_eq_true] at hall
-    simpa using hall r hm
-
 /-- With every proposed fix applied the whole table is `clone`: isolation for ALL op sequences over
 the ports of the table. -/
 theorem pipeline_isolated_fixed (ops : List Op) (op : Op)
@@ -163,11 +148,16 @@ theorem asis_share_ports_leak :
     leaks {} "dutyDB.AwaitProposal" = true ∧
     leaks {} "dutyDB.AwaitSyncContribution" = true ∧
     leaks {} "sched.resolveSyncCommDuties" = true ∧
+    leaks {} "cache.fetchSyncDuties" = true ∧
+    leaks {} "cache.SyncCommDutiesCache" = true ∧
+    leaks {} "cache.AttesterDutiesCache" = true ∧
+    leaks {} "cache.ProposerDutiesCache" = true ∧
     -- with the fixes applied the same run does not leak
     leaks allFixes "dutyDB.AwaitAttestation" = false ∧
     leaks allFixes "dutyDB.AwaitProposal" = false ∧
     leaks allFixes "dutyDB.AwaitSyncContribution" = false ∧
     leaks allFixes "sched.resolveSyncCommDuties" = false ∧
+    leaks allFixes "cache.SyncCommDutiesCache" = false ∧
     -- and a clone port of the tree as it is does not leak
     leaks {} "dutyDB.AwaitAggAttestation" = false ∧
     leaks {} "aggSigDB.Await" = false := by decide
@@ -176,10 +166,11 @@ theorem asis_share_ports_leak :
 def sharePorts (tbl : List (String × String × Mode)) : List Port :=
   (tbl.filter (fun r => r.2.2 == .share)).map (fun r => portName r.1 r.2.1)
 
-/-- exactly the four known rows are `share` in the tree as it is (a new `share` row must be added here
+/-- exactly the eight known rows are `share` in the tree as it is (a new `share` row must be added here
 and to the findings). -/
 theorem asis_share_rows : sharePorts (portTable {}) =
-    ["sched.resolveSyncCommDuties", "dutyDB.AwaitProposal", "dutyDB.AwaitAttestation", "dutyDB.AwaitSyncContribution"] := by
+    ["cache.fetchSyncDuties", "cache.SyncCommDutiesCache", "cache.AttesterDutiesCache", "cache.ProposerDutiesCache",
+     "sched.resolveSyncCommDuties", "dutyDB.AwaitProposal", "dutyDB.AwaitAttestation", "dutyDB.AwaitSyncContribution"] := by
   decide
 
 /-- T-wire tie: both ends of every edge of the wiring graph generated from `core.Wire` have a row in
@@ -187,14 +178,14 @@ the hand-written port table (a newly wired subscription without a classified por
 theorem ports_cover_wire (fx : Fixes) :
     CharonV.Generated.Wire.wireEdges.all (edgeCovered (portTable fx)) = true := by
   cases fx with
-  | mk a b c d => cases a <;> cases b <;> cases c <;> cases d <;> decide
+  | mk a b c d e => cases a <;> cases b <;> cases c <;> cases d <;> cases e <;> decide
 
 /-- the generated graph is not empty and every component of `Wire` appears in the table. -/
 theorem ports_cover_components (fx : Fixes) :
     CharonV.Generated.Wire.wireEdges.length ≥ 20 ∧
     CharonV.Generated.Wire.wireComponents.all (fun c => (portTable fx).any (fun r => r.1 == c)) = true := by
   cases fx with
-  | mk a b c d => cases a <;> cases b <;> cases c <;> cases d <;> decide
+  | mk a b c d e => cases a <;> cases b <;> cases c <;> cases d <;> cases e <;> decide
 
 /-! ### non-vacuity -/
 
